@@ -161,14 +161,37 @@ def cargo_build(packages):
             import shutil; shutil.copy("/repo/Cargo.lock", lock)
         cmd = ["cargo", "build", "--release", "--offline"] + cargo_extra_args()
         for p in packages:
-            cmd += ["-p", p]
+            if "@" not in p:
+                cmd += ["-p", p]
         rc, out = sh(cmd, cwd=HARNESS, timeout=3600)
+        dbg = [p.split("@")[0] for p in packages if p.endswith("@dbg")]
+        if rc == 0 and dbg:
+            # the same crates once more with debug assertions on (profile `dbg` of harness/Cargo.toml): code under
+            # `debug_assert!` / `cfg!(debug_assertions)` in /repo is part of what a user's `cargo test` / `cargo run` executes
+            cmd = ["cargo", "build", "--profile", "dbg", "--offline"] + cargo_extra_args()
+            for p in dbg:
+                cmd += ["-p", p]
+            rc, out = sh(cmd, cwd=HARNESS, timeout=3600)
     return rc, out
+
+
+def debug_twins(streams, names=None):
+    """`streams` plus, for each one named in `names` (all when None), the same stream run on the debug-assertions build of its
+    binary: same operations, same model answers, same judge."""
+    import copy
+    for st in streams:
+        yield st
+        if isinstance(st, Stream) and (names is None or st.name in names) and "/" not in st.binary:
+            tw = copy.copy(st)
+            tw.name = st.name + " (debug-assertions build)"; tw.binary = "dbg/" + st.binary
+            yield tw
 
 
 def harness_bin(name):
     if name.startswith("/"):
         return name
+    if "/" in name:             # "<profile>/<binary>", e.g. dbg/hcore: the same crate built with debug assertions
+        return os.path.join(target_dir(os.path.join(HARNESS, "target")), name)
     return os.path.join(target_dir(os.path.join(HARNESS, "target")), "release", name)
 
 
